@@ -22,9 +22,22 @@ use std::time::{Duration, SystemTime, UNIX_EPOCH};
 pub static PANICS: AtomicUsize = AtomicUsize::new(0);
 
 pub struct SimBlocks(pub Arc<AtomicU32>);
+/// "the block height cannot be read right now" (the watcher's own mutex is busy, e.g. during its getinfo poll): the C14 schedules
+/// freeze one payment at this await as well
+pub static HEIGHT_FROZEN: std::sync::atomic::AtomicBool = std::sync::atomic::AtomicBool::new(false);
+pub static HEIGHT_HELD: std::sync::atomic::AtomicBool = std::sync::atomic::AtomicBool::new(false);
+pub static HEIGHT_NOTIFY: tokio::sync::Notify = tokio::sync::Notify::const_new();
 #[async_trait::async_trait]
 impl crate::block_watcher::BlockProvider for SimBlocks {
-    async fn current_height(&self) -> u32 { self.0.load(Ordering::SeqCst) }
+    async fn current_height(&self) -> u32 {
+        // only the FIRST reader after "freeze_height" is held up (it takes the ticket): like every other freeze stage this
+        // withholds one await of payment A while the same operation of payment B goes through
+        if HEIGHT_FROZEN.swap(false, Ordering::SeqCst) {
+            HEIGHT_HELD.store(true, Ordering::SeqCst);
+            while HEIGHT_HELD.load(Ordering::SeqCst) { HEIGHT_NOTIFY.notified().await; }
+        }
+        self.0.load(Ordering::SeqCst)
+    }
 }
 pub struct SimNotify(pub Arc<Mutex<Vec<Vec<u8>>>>);
 #[async_trait::async_trait]
@@ -555,6 +568,7 @@ fn walk_next(w: &mut World, r: &mut SplitMix, wt: &Value, pool: &Vec<Value>, ste
 pub fn run_case(case: &Value) -> Value {
     let cfg = case["cfg"].clone();
     let node: Shared = Arc::new(Mutex::new(Node::default()));
+    HEIGHT_FROZEN.store(false, Ordering::SeqCst); HEIGHT_HELD.store(false, Ordering::SeqCst);
     let mut w = World { cfg: cfg.clone(), node: node.clone(), invoices: vec![], hashes: vec![], preimages: BTreeMap::new(), att_ord: BTreeMap::new(),
         responses: Arc::new(Mutex::new(vec![])), notes: Arc::new(Mutex::new(vec![])), height: Arc::new(AtomicU32::new(0)), panics_seen: PANICS.load(Ordering::SeqCst),
         skew_guard: BTreeMap::new(), skewed: false, last_existed: None, next_uid: 0, delivered: vec![], answered: vec![], resolved: vec![], held: vec![] };
@@ -667,6 +681,12 @@ pub fn run_case(case: &Value) -> Value {
                         continue;
                     } else if e["e"] == "release" {
                         si += 1; w.held.clear(); continue;
+                    } else if e["e"] == "freeze_height" {
+                        // not an event of the model: from now on reading the block height does not return (until "unfreeze_height")
+                        si += 1;
+                        if e.get("on").and_then(|x| x.as_bool()).unwrap_or(true) { HEIGHT_FROZEN.store(true, Ordering::SeqCst); }
+                        else { HEIGHT_FROZEN.store(false, Ordering::SeqCst); HEIGHT_HELD.store(false, Ordering::SeqCst); HEIGHT_NOTIFY.notify_waiters(); settle().await; }
+                        continue;
                     } else if e["e"] == "replay_unanswered" {
                         // re-deliver (one per round) every delivered htlc that has no answer yet and was not yet replayed in this epoch
                         let epoch = w.node.lock().unwrap().epoch;
